@@ -1173,17 +1173,7 @@ func (c *FCtx) freezeTerm(t *Term, w map[string]bool, id string) *Term {
 	if len(t.Args) == 0 {
 		return T("pre", id, t)
 	}
-	if t.Op == "call" {
-		// a call term whose callee reads the location: freeze the whole term
-		own := map[string]bool{}
-		shallow := &Term{Op: t.Op, Name: t.Name}
-		c.A.termReads(shallow, own)
-		for l := range own {
-			if w[l] {
-				return T("pre", id, t)
-			}
-		}
-	}
+	// results of earlier calls are values: they are not re-evaluated, only direct reads of the live location are frozen
 	na := make([]*Term, len(t.Args))
 	for i, a := range t.Args {
 		na[i] = c.freezeTerm(a, w, id)
